@@ -25,6 +25,8 @@ pub fn setup_world(kind: TK, offered: u64, config: Vec<u8>, max_queue: u32) {
             w.hal.next_dma = 0x0000_0000_8000_0000;
         }
         w.spin_limit = 200_000;
+        // driver-level checks: a posted device-writable buffer reads as garbage until it is popped
+        w.hal.poison_posted = true;
     });
 }
 
